@@ -5,6 +5,9 @@ use crate::errors::{Result, RuleEngineError};
 use crate::parser::grl::GRLParser;
 use crate::types::Value;
 use std::collections::HashMap;
+#[cfg(rre_verif_shuttle)]
+use shuttle::sync::{Arc, RwLock};
+#[cfg(not(rre_verif_shuttle))]
 use std::sync::{Arc, RwLock};
 
 /// Knowledge Base - manages collections of rules and facts
